@@ -309,7 +309,9 @@ Example C08_append_after_tear_nonvacuous :
   [ {| e_out := [57]; e_start := 260; e_end := 300; e_mtime := 170000000037;
        e_hash := 18446744073709551615 |} ].
 Proof.
-  split; [vm_compute; lia|]. split; [unfold load_buf_size; vm_compute; lia|].
+  split; [vm_compute; lia|].
+  split; [replace (length (torn_fragment 100 ex_log) + length (render_entry ex_lib))%nat
+            with 62%nat by (vm_compute; reflexivity); unfold load_buf_size; lia|].
   split; vm_compute; reflexivity.
 Qed.
 
